@@ -22,7 +22,7 @@ REAL = ["lian.common_structs.PathManager", "PathTrie", "TrieNode", "CallPath", "
 STUBS = []
 ASSUMPTIONS = ["the empty path is not generated (the property does not say whether () is a path)",
                "call-site validity = no negative caller/stmt/callee id (CallPath.has_any_negative)"]
-PROBES = ["invivo_persisted_readbacks_checked", "invivo_history_run_ok", "invivo_history_ws_symlink_sub", "invivo_p3_analyses", "invivo_second_analysis_same_process", "invivo_persisted_sets_checked", "invivo_adds", "invivo_prefix_evictions", "invivo_prefix_rejections", "prefix_eviction", "reject_prefix", "reject_dup", "reject_negative", "reject_badtype",
+PROBES = ["invivo_debug_run", "invivo_persisted_readbacks_checked", "invivo_history_run_ok", "invivo_history_ws_symlink_sub", "invivo_p3_analyses", "invivo_second_analysis_same_process", "invivo_persisted_sets_checked", "invivo_adds", "invivo_prefix_evictions", "invivo_prefix_rejections", "prefix_eviction", "reject_prefix", "reject_dup", "reject_negative", "reject_badtype",
           "add_after_remove_same", "add_after_remove_prefix", "add_after_evict_then_remove",
           "remove_hit", "remove_miss", "branching", "numpy_ids", "persist_restore"]
 # the same check again, smaller, in interpreters started with assertions stripped (python -O / PYTHONOPTIMIZE=1)
@@ -124,7 +124,8 @@ def gen_knobs(rng, tier):
         "p_badtype": rng.choice([0.0, 0.03]),
         "big_ids": rng.random() < 0.3,          # ids of large workspaces (extern ids start above 10^8; int64 arithmetic wraps near 9.2e18)
         "p_numpy": rng.choice([0.0, 0.0, 0.3]),  # call sites whose ids are numpy integers (ids read from tables are)
-        "w_persist": rng.choice([0, 0, 1]),      # save the stored paths through the call-path loader, export, restore, re-seed a new store
+        "persist_max_rows": rng.choice([1, 2, 3, 400000, 400000]),
+        "w_persist": rng.choice([0, 0, 1, 2]),      # save the stored paths through the call-path loader, export, restore, re-seed a new store
     }
 
 
@@ -258,7 +259,7 @@ def execute_invivo(trace):
     if st.get("c19_readbacks_checked"):
         probes["invivo_persisted_readbacks_checked"] = st["c19_readbacks_checked"]
     for k_, v_ in st.items():
-        if k_.startswith("history_"):
+        if k_.startswith("history_") or k_ == "debug_run":
             probes["invivo_" + k_] = v_
     if st.get("c19_persisted_sets_checked"):
         probes["invivo_persisted_sets_checked"] = st["c19_persisted_sets_checked"]
@@ -281,6 +282,9 @@ def execute(trace):
     import tempfile
     from sim.core import scratch_root
     persist_dir = None
+    # the bundle row limit is read at call time by the storage layer: small values make a persisted table "big"
+    from lian.config import config as _cfg
+    _cfg.MAX_ROWS = int(k.get("persist_max_rows", 400000))
     pm = _cs.PathManager()
     m = Model()
     probes = {}
@@ -408,6 +412,7 @@ def execute(trace):
         states.add(h64(canon_json(sorted(m.S))))
         log.append([kind, obs if isinstance(obs, (bool, type(None))) else repr(obs), len(view)])
     from sim.core import digest_hex
+    _cfg.MAX_ROWS = 400000
     if persist_dir:
         shutil.rmtree(persist_dir, ignore_errors=True)
     return {"violation": violation, "probes": probes, "states": states, "trans": trans,
